@@ -114,7 +114,7 @@ type GlobalFact struct {
 }
 
 var clauseKeywords = map[string]bool{
-	"func": true, "requires": true, "ensures": true, "modifies": true, "preserves": true, "refinedby": true, "monitor": true, "protects": true, "track": true, "before": true, "panics": true, "maypanic": true, "nopanic": true,
+	"func": true, "requires": true, "ensures": true, "modifies": true, "preserves": true, "refinedby": true, "monitor": true, "protects": true, "strict": true, "track": true, "before": true, "panics": true, "maypanic": true, "nopanic": true,
 	"loop": true, "invariant": true, "decreases": true, "spec": true, "lemma": true, "induct": true,
 	"smt": true, "smtlate": true, "closed": true, "neversent": true, "chaninv": true, "immutableheap": true, "fieldinv": true, "inline": true, "sort": true, "global": true, "package": true, "ghost": true, "type": true, "trusted": true, "props": true, "use": true, "hdruse": true, "assert": true, "axiom": true, "pattern": true, "opaque": true,
 }
@@ -387,6 +387,11 @@ func (cs *Contracts) loadContractFile(path string, pkg string, goFile bool) erro
 			curM = &MonitorDecl{Pkg: pkg, Type: rest[:i], Field: strings.TrimSpace(rest[i+1:]), File: path, Line: l.no}
 			cs.Monitors[pkg+"."+curM.Type+"."+curM.Field] = curM
 			curF, curLoop, curL = nil, nil, nil
+		case "strict":
+			if curM == nil {
+				return fmt.Errorf("%s:%d: strict outside monitor", path, l.no)
+			}
+			curM.Strict = true
 		case "protects":
 			if curM == nil {
 				return fmt.Errorf("%s:%d: protects outside monitor", path, l.no)
